@@ -223,7 +223,7 @@ Section Total.
       destruct (ofold (relax weighted fo wp cutoff (fr_index item) (- fr_distance item)) row s2) as [s3| | |] eqn:E3;
         cbn [bind]; cbn in F3; try contradiction.
       + destruct (R3 s3 eq_refl) as [Sh3 [Hd3 [Hf3 B3]]]. apply IH; [exact Sh3 | exact B3|].
-        rewrite Hd3. unfold s2 in *. cbn [d_dist d_fringe] in *. clear - Hm Hl Hp Hf3. unfold adj in *. lia.
+        rewrite Hd3. unfold s2 in *. cbn [d_dist d_fringe] in *. clear - Hm Hl Hp Hf3. lia.
       + split; [exact I|]. intros s' E. discriminate.
   Qed.
 
@@ -348,7 +348,7 @@ Section Total.
       destruct (ofold (relax_basic weighted (- fr_distance item)) row s2) as [s3| | |] eqn:E3;
         cbn [bind]; cbn in F3; try contradiction.
       + destruct (R3 s3 eq_refl) as [Sh3 [Hd3 [Hf3 B3]]]. apply IH; [exact Sh3 | exact B3|].
-        rewrite Hd3. unfold s2 in *. cbn [d_dist d_fringe] in *. clear - Hm Hl Hp Hf3. unfold adj in *. lia.
+        rewrite Hd3. unfold s2 in *. cbn [d_dist d_fringe] in *. clear - Hm Hl Hp Hf3. lia.
       + split; [exact I|]. intros s' E. discriminate.
   Qed.
 End Total.
